@@ -210,6 +210,7 @@ def check(case):
             new2, ra2 = [v + 0.125 for v in new], ra
         else:
             lab2 = [v + (1 if kind == "i" else 0.125) for v in ra.labels[p]]
+            lab2 = lab2[1:] + lab2[:1]      # ... and in another ORDER (a sorted axis becomes unsorted, an unsorted one possibly sorted)
             for j, v in enumerate(lab2):
                 a.axes[p][j] = v
             labels2 = list(ra.labels)
